@@ -80,12 +80,12 @@ PROPS = {
         "explanation": "theorems decode_unique, cross_reject + acceptance mask of the 16 real decoders compared with the model's; oracle on the implementation's answer: at most one bit set",
     },
     "C13": {
-        "groups": {"loop_usart": Q(20000, 120000), "loop_serial": Q(20000, 120000), "loop_can": Q(20000, 120000)},
+        "groups": {"sched_usart_enum": Q(14076, 14076), "sched_serial_enum": Q(14076, 14076), "sched_can_enum": Q(126, 126), "loop_usart": Q(20000, 120000), "loop_serial": Q(20000, 120000), "loop_can": Q(20000, 120000)},
         "rule": "1..5 packets (single/multi-frame, both flags, boundary addresses, once per 50 cases up to the 4096-frame limit) sent through the real sender into a recording device, replayed into the real receiver with 'no data yet' inserted by a seeded schedule; distinct by input text; non-trivial = at least 2 packets or a multi-frame packet",
         "explanation": "theorems can_transparent, usart_transparent, serial_transparent (every packet list, every schedule) + real send -> real receive; compared: wire digest, every poll result, device items left after every call; oracle on the implementation's answer: emissions are exactly the packets sent",
     },
     "C14": {
-        "groups": {"tx_usart": Q(32000, 200000), "tx_can": Q(32000, 200000), "tx_serial": Q(32000, 200000)},
+        "groups": {"tx_usart_enum": Q(603, 603), "tx_can_enum": Q(45, 45), "tx_serial_enum": Q(2160, 2160), "tx_usart": Q(32000, 200000), "tx_can": Q(32000, 200000), "tx_serial": Q(32000, 200000)},
         "rule": "packets of 0..2000 bytes and the limits x device response scripts (USART would-block bursts; CAN would-block and displaced-frame reports; serial port short writes of 1..6 bytes, all-one-byte writes, zero writes, interrupted, I/O errors, flush failure); distinct by input text; non-trivial = multi-frame packet or a non-empty response script",
         "explanation": "theorems usartSend_exact, canSend_exact, serialSend_exact, writeAll_spec + real try_send_packet against scripted devices; device log (digest), flush count and result compared; a differing line is a concrete C14 violation (model = wire image)",
     },
@@ -106,6 +106,12 @@ for k in ("C15", "C16", "C17", "C18"):
 
 
 ENUM_SCOPES = {
+    "sched_usart_enum": "three packet sets (1, 2 and 1+3+1 frames): every placement of one or two would-blocks before any byte of the wire, and a would-block before every byte (14076 index points incl. fillers)",
+    "sched_serial_enum": "the same packet sets on the serial port: one or two time-outs before any link frame / interrupts before any other byte, and all positions at once",
+    "sched_can_enum": "the same packet sets on CAN: one or two would-blocks before any frame, and before every frame",
+    "tx_usart_enum": "the same packet sets: a burst of 1..3 would-blocks before every byte index of the wire",
+    "tx_can_enum": "the same packet sets: a displaced-frame report, a would-block, or two would-blocks then a displaced report at every transmit index",
+    "tx_serial_enum": "the same packet sets: an I/O error, a zero-length write, an interrupt or a short write of 1..3 bytes at each of the first 40 write calls, the other calls accepting 1, 2 or all bytes; flush failing on the second send in one case of seven",
     "frag_rt_enum": "every payload length 0..=299 (thorough: 0..=28672, the 4096-frame limit) through each of the three frame paths",
     "to_frames_enum": "every payload length 0..=599 (thorough: 0..=28672)",
     "usart_dec_enum": "every byte string of length 0..=2 (65793; thorough: 0..=3, 16843009) as a USART body",
@@ -140,6 +146,8 @@ def nontrivial(group, inp, obs):
         return sum(1 for x in obs.split(",") if not x.startswith("nothing")) >= 3
     if g.startswith("psend"):
         return t[4] != "-"
+    if g.startswith("sched"):
+        return "+" in t[2] or len(t[2].split(":")[-1]) > 16
     if g.startswith("tx"):
         m = re.search(r"x(\d+)$", t[2])
         return (bool(m) and int(m.group(1)) > 8) or t[3] != "-"
